@@ -117,8 +117,12 @@ def cases_c01(run, thorough):
     return cases
 
 
-def label_addr(im):
+def label_addr(im, meta=None):
     if im["k"] != "ok":
+        # rejected: the layout of the generated label programs is known up to the size of the one instruction
+        # (label first: at the origin; label last: origin + 2..4 + 1) - enough to tell below / above $100 apart
+        if meta is not None:
+            return (meta.get("org") or 0) + (4 if meta.get("late") else 0)
         return 0
     for k, v in im["symtab"]:
         if k == "LBL" and v:
@@ -139,7 +143,7 @@ def run_c01(run, thorough=False, for_c12=False):
     for (c, im, rep), d in zip(res, decs):
         m = c["meta"]
         idx = m.get("stmt", 0)
-        la = label_addr(im) if c["tag"] == "label" else None
+        la = label_addr(im, m) if c["tag"] == "label" else None
         verdict = oracle_asm.judge_statement(m, im, idx, d, la)
         outcome = "ok" if verdict is None else verdict[0]
         run.case("asm.stmt", {"src": [l.strip() for l in c["lines"]], "form": m.get("form")}, [im["k"], outcome], nontrivial=True, sample_every=997)
